@@ -284,6 +284,10 @@ def run(tier):
     c01.sha256(prog, rep)
     c01.k2_k3_k6(prog, rep)
     c01.ctx_typestate(prog, rep, [UNIT, "alg/sha256.c"])
+    # a signing function that cannot allocate must fail, not return success with the signature buffer unwritten (rule shared with C14)
+    from . import c14
+    c14.reported_rule(prog, rep, only_files=(UNIT,))
+    c14.leak_rules(prog, rep, only_files=(UNIT,))
     variants = {"aws_sign_s3_headers": "hdr", "aws_sign_svc_headers": "hdr", "aws_sign_dynamodb_headers": "hdr", "aws_sign_s3_querystr": "qs"}
     for name, kind in variants.items():
         f = u.func(name)
